@@ -654,7 +654,20 @@ class Gen:
         return list(fallback())
 
     def op(self, obs):
+        o = self._op(obs)
+        # targeted pattern (seeded regression C15): the SAME get_signer arguments before and after a delete
+        if o[0] == 13:
+            self.last_signer = o[1]
+        elif o[0] in (8, 9, 10, 11, 12) and getattr(self, 'last_signer', None) is not None:
+            self.replay_signer = self.last_signer
+        return o
+
+    def _op(self, obs):
         rng = self.rng
+        if getattr(self, 'replay_signer', None) is not None:
+            a, self.replay_signer = self.replay_signer, None
+            if rng.random() < 0.7:
+                return [13, a]
         ids = [i[0] for i in obs[1]]
         keys = [k[0] for i in obs[1] for k in i[3]]
         certs = [c[0] for i in obs[1] for k in i[3] for c in k[4]]
@@ -783,7 +796,7 @@ class Gen:
                 a[2], a[3], a[4] = [pcert()], [pkey()], [pid()]
                 if rng.random() < 0.5:
                     a[2] = []
-            if rng.random() < 0.3:
+            if rng.random() < (0.5 if a[2] else 0.3):
                 a[5] = [list(rng.choice(LOC_POOL + certs[:2]))]
             return [13, a]
         return [14]
